@@ -730,6 +730,15 @@ _BTree_set(BTree *self, PyObject *keyarg, PyObject *value,
     PER_USE_OR_RETURN(self, -1);
 
     self_was_empty = self->len == 0;
+    if (value
+        && (_max_internal_size(self) < 0 || _max_leaf_size(self) < 0))
+    {
+        /* Bad node sizes configured on the class:  report that before
+        * anything is mutated.
+        */
+        self_was_empty = 0;
+        goto Error;
+    }
     if (self_was_empty)
     {
         /* We're empty.  Make room. */
@@ -799,12 +808,12 @@ _BTree_set(BTree *self, PyObject *keyarg, PyObject *value,
         assert(status == 1);    /* can be 2 only on deletes */
         if (SameType_Check(self, d->child)) {
             long max_size = _max_internal_size(self);
-            if (max_size < 0) return -1;
+            if (max_size < 0) goto Error;
             toobig = childlength > max_size;
         }
         else {
             long max_size = _max_leaf_size(self);
-            if (max_size < 0) return -1;
+            if (max_size < 0) goto Error;
             toobig = childlength > max_size;
         }
         if (toobig) {
